@@ -1142,6 +1142,47 @@ pub fn write_head_small(f: &mut F<SendRequest>, rng: &mut Rng) -> Result<Vec<u8>
     Ok(out)
 }
 
+/// The head through buffers that are exactly as long as the line to come: for every write the buffer grows from one
+/// byte until the write is accepted, and the first accepted size must be the size of what was written - had a
+/// smaller buffer been enough for those bytes, a caller whose buffers are as long as its longest line (the size the
+/// documentation asks for) would never get that line out.
+pub fn write_head_exact(f: &mut F<SendRequest>) -> Result<Vec<u8>, String> {
+    let mut out = Vec::new();
+    for _ in 0..400 {
+        if f.can_proceed() {
+            return Ok(out);
+        }
+        let mut done = false;
+        for size in 1..70_000usize {
+            let mut buf = vec![0u8; size];
+            match f.write(&mut buf) {
+                Ok(0) => return Err(format!("write(out={}) -> Ok(0) before the head is complete", size)),
+                Ok(n) => {
+                    if n != size {
+                        return Err(format!(
+                            "the line {:?} ({} bytes) was refused by buffers of {}..{} bytes and only went out into {} bytes",
+                            String::from_utf8_lossy(&buf[..n.min(80)]),
+                            n,
+                            n,
+                            size - 1,
+                            size
+                        ));
+                    }
+                    out.extend_from_slice(&buf[..n]);
+                    done = true;
+                    break;
+                }
+                Err(Error::OutputOverflow) => {}
+                Err(e) => return Err(format!("{:?}", e)),
+            }
+        }
+        if !done {
+            return Err("no buffer up to 70000 bytes was accepted".into());
+        }
+    }
+    Err("head not complete after 400 lines".into())
+}
+
 /// Take a flow in SendRequest whose head is complete to RecvResponse, sending `body`
 /// (big buffers), optionally skipping Await100 by giving up at once.
 pub fn to_recv_response(f: F<SendRequest>, body: &[u8]) -> Result<F<RecvResponse>, String> {
@@ -1221,9 +1262,10 @@ pub fn body_sender(cl: Option<u64>, explicit_te: bool, use_call: bool) -> Result
 /// header: the body defaults to chunked); bit 11 (Flow only): the flow is produced by a redirect - a POST
 /// sent with `transfer-encoding: chunked` and answered 303 - and the GET that follows gets its body
 /// through the escape hatch, framed by a content-length added in Prepare when `cl` is given
-pub fn body_sender_ex(cl: Option<u64>, explicit_te: bool, use_call: bool, variant: u16) -> Result<BodySender, String> {
+pub fn body_sender_ex(cl: Option<u64>, explicit_te: bool, use_call: bool, variant: u32) -> Result<BodySender, String> {
     if variant & 2048 != 0 && !use_call {
-        return redirected_body_sender(cl);
+        // (with bit 10: the request that was redirected carried a content-length of its own)
+        return redirected_body_sender(cl, variant & 1024 != 0);
     }
     if variant & 4096 != 0 && !use_call {
         // bit 12: a GET whose content-length is added through header() BEFORE the escape hatch is switched on
@@ -1260,15 +1302,20 @@ pub fn body_sender_ex(cl: Option<u64>, explicit_te: bool, use_call: bool, varian
         b = b.header("expect", "100-continue");
     }
     if let Some(n) = cl {
-        b = b.header("content-length", n.to_string());
+        // bit 15 (with a length): the number is padded with zeros to a fixed width
+        b = b.header("content-length", if variant & 32768 != 0 { format!("{:07}", n) } else { n.to_string() });
         if variant & 16384 != 0 {
             // bit 14: a coding that is not chunked next to the content-length: the length still frames the body
             b = b.header("transfer-encoding", "gzip");
         }
     } else if explicit_te {
+        if variant & 65536 != 0 && variant & 4 != 0 {
+            // bit 16 (with bit 2): the length first, another field, then the coding
+            b = b.header("content-length", "4242").header("x-between", "1");
+        }
         // bit 7: the coding named with a capital letter
         b = b.header("transfer-encoding", if variant & 128 != 0 { "Chunked" } else { "chunked" });
-        if variant & 4 != 0 {
+        if variant & 4 != 0 && variant & 65536 == 0 {
             // both framing headers: the chunked coding decides, the head says so
             b = b.header("content-length", "4242");
         }
@@ -1289,6 +1336,11 @@ pub fn body_sender_ex(cl: Option<u64>, explicit_te: bool, use_call: bool, varian
         if despite {
             p.send_body_despite_method();
         }
+        if variant & 32768 != 0 && cl.is_none() && explicit_te {
+            // bit 15 (without a length): the caller adds another coding in Prepare; the list then stands on two
+            // lines that are not next to each other, and its last member is still chunked
+            p.header("transfer-encoding", "gzip").map_err(|e| format!("{:?}", e))?;
+        }
         let mut f = p.proceed();
         if variant & 8192 != 0 {
             // bit 13: the head goes out one line per write, through buffers exactly as long as the line, so that
@@ -1297,6 +1349,9 @@ pub fn body_sender_ex(cl: Option<u64>, explicit_te: bool, use_call: bool, varian
             let mut twin = Flow::new(mk_req()).map_err(|e| format!("{:?}", e))?;
             if despite {
                 twin.send_body_despite_method();
+            }
+            if variant & 32768 != 0 && cl.is_none() && explicit_te {
+                twin.header("transfer-encoding", "gzip").map_err(|e| format!("{:?}", e))?;
             }
             let mut twin = twin.proceed();
             let n = twin.write(&mut buf).map_err(|e| format!("{:?}", e))?;
@@ -1345,11 +1400,12 @@ pub fn body_sender_ex(cl: Option<u64>, explicit_te: bool, use_call: bool, varian
 }
 
 /// See bit 11 of `body_sender_ex`.
-fn redirected_body_sender(cl: Option<u64>) -> Result<BodySender, String> {
+fn redirected_body_sender(cl: Option<u64>, original_sized: bool) -> Result<BodySender, String> {
     // the first request is framed by chunked - or, for small even lengths, by the very content-length value
     // the caller will give the redirected request (it is a new header there, not a repetition)
     let first = match cl {
         Some(n) if n % 2 == 0 && n <= 4096 => ReqCfg::new("POST", "http://h.test/first").h("content-length", n.to_string().as_bytes()).h("cookie", b"a=b"),
+        None if original_sized => ReqCfg::new("POST", "http://h.test/first").h("content-length", b"3").h("cookie", b"a=b"),
         _ => ReqCfg::new("POST", "http://h.test/first").h("transfer-encoding", b"chunked").h("cookie", b"a=b"),
     };
     let (end, ..) = fast_to_recv(&first).and_then(|f| fast_response(f, b"HTTP/1.1 303 See Other\r\nLocation: /up\r\nContent-Length: 0\r\n\r\n"))?;
